@@ -82,6 +82,24 @@ def h_lift_nocomp(depth):
 
 STRS = [' Ab c ', '1.5', 'ab,cd']
 LIB = dict(lower = lambda s: s.lower(), upper = lambda s: s.upper(), strip = lambda s: s.strip(), proper = None, replace = None, split = None, as_float = None)
+def h_f12_mixed(depth):
+    """f12 formats float leaves and leaves everything else alone, whatever equal-valued leaves (1.0 / 1 / True) were formatted before; own reference, not the function itself"""
+    def h(c):
+        import pyg_base as P
+        x = struct(c, 'x', depth, lambda n: c.pick(n, [1.0, 1, True, 'hi']))
+        def ref(v):
+            if isinstance(v, (list, tuple)): return type(v)(ref(u) for u in v)
+            if isinstance(v, dict): return type(v)({k: ref(u) for k, u in v.items()})
+            return '%1.2f' % v if type(v) is float else v
+        def same(a, b):
+            if is_cont(a) or is_cont(b):
+                if type(a) is not type(b) or len(a) != len(b): return False
+                return all(same(u, v) for u, v in (zip(a, b) if not isinstance(a, dict) else [(a[k], b.get(k)) for k in a]))
+            return type(a) is type(b) and a == b
+        P.f12([1.0])                                # an earlier call has formatted equal-valued floats
+        c.check('f12-formats-exactly-the-float-leaves', same(P.f12(x), ref(x)))
+    return h
+
 def h_library(fn, depth):
     def h(c):
         import pyg_base as P
@@ -225,6 +243,7 @@ def obligations(tier):
         obs.append(Ob('lift.no-companion.%s' % t, h_lift_nocomp(D), pins = {'x.t': i}, budget_s = 300 if q else 2400, desc = 'lifted unary function, x a %s' % t))
     for fn in ['lower', 'upper', 'strip', 'proper', 'replace', 'split', 'as_float']:
         obs.append(Ob('library.%s' % fn, h_library(fn, 2), budget_s = 300, desc = '%s on nested structures == the function on each leaf' % fn))
+    obs.append(Ob('library.f12.equal-valued-leaves', h_f12_mixed(1), budget_s = 300, desc = 'f12 on containers holding 1.0 / 1 / True / text: exactly the float leaves are formatted'))
     for n in (1, 2, 3):
         obs.append(Ob('zipper.%d' % n, h_zipper(n), budget_s = 300, desc = 'zipper / lens on %d operands' % n))
     obs.append(Ob('as_list.idempotent', h_aslist(2), budget_s = 300, desc = 'as_list is an idempotent normaliser; result types'))
